@@ -49,6 +49,9 @@ def find_best_scans(w: Walker, li: LoopInfo) -> List[BestScan]:
             if n2 == name:
                 continue
             phi2 = ("phi", li.lid, n2)
+            for g in outer:
+                if e2[0] == "sel" and e2[1] == g and e2[3] == phi2:
+                    e2 = e2[2]
             if e2[0] == "sel" and e2[1] == c and e2[3] == phi2:
                 bs.companions[n2] = (i2, e2[2])
             else:
